@@ -67,6 +67,11 @@ type vfHSCase struct {
 	Mode   string   `json:"mode"`
 	Local  vfLocal  `json:"local"`
 	Status vfStatus `json:"status"`
+	// frame-level variations of the inbound stream (modes "inbound"/"recv")
+	FrameProto uint32 `json:"frame_proto"` // sub-protocol of the frame carrying the status (0 = StatusRequest)
+	Keep       int    `json:"keep"`        // >0: keep only that many bytes of the frame
+	Cut        int    `json:"cut"`         // >0: drop that many bytes from the end of the frame
+	RawStream  string `json:"raw_stream"`  // if set: the inbound stream is exactly these bytes (hex); "-" = empty stream
 }
 
 type vfHSObs struct {
@@ -75,6 +80,8 @@ type vfHSObs struct {
 	GoAway   string `json:"goaway"`
 	Cls      int    `json:"cls"`
 	ChainID  string `json:"chain_id"` // the status chain id bytes actually used
+	Stream   string `json:"stream"`   // the inbound byte stream actually used (frame modes)
+	MaxLen   uint32 `json:"maxlen"`   // p2pcommon.MaxPayloadLength in force
 	Panic    bool   `json:"panic"`
 }
 
@@ -123,7 +130,7 @@ func vfBuildStatus(s *vfStatus) (*types.Status, []byte) {
 	return st, cid
 }
 
-var vfGoAwayClass = map[string]int{"wrong status": 1, "different chainID": 2, "wrong block hash": 3,
+var vfGoAwayClass = map[string]int{"malformed message": 20, "unexpected message type": 21, "malformed status message": 23, "wrong status": 1, "different chainID": 2, "wrong block hash": 3,
 	"invalid peer address": 4, "Inconsistent peerID": 5, "different genesis block": 6, "invalid certificate works": 7}
 
 // vfLastGoAway decodes the frames written to buf with the real reader and returns the
@@ -159,6 +166,8 @@ func vfClassify(o *vfHSObs, err error, goaway string) {
 		o.Err = err.Error()
 		if c, ok := vfGoAwayClass[goaway]; ok {
 			o.Cls = c
+		} else if goaway == "" {
+			o.Cls = 22 // refused without sending a GoAway (e.g. the peer sent one)
 		} else {
 			o.Cls = 99
 		}
@@ -200,11 +209,29 @@ func TestVerifC18HS200Engine(t *testing.T) {
 				if err != nil {
 					panic(err)
 				}
-				msg := p2pcommon.NewMessageValue(p2pcommon.StatusRequest, p2pcommon.NewMsgID(), p2pcommon.EmptyID, 1700000000000000000, body)
+				sp := p2pcommon.StatusRequest
+				if c.FrameProto != 0 {
+					sp = p2pcommon.SubProtocol(c.FrameProto)
+				}
+				msg := p2pcommon.NewMessageValue(sp, p2pcommon.NewMsgID(), p2pcommon.EmptyID, 1700000000000000000, body)
 				fw := v030.NewV030ReadWriter(bytes.NewReader(nil), &input, nil)
 				if err := fw.WriteMsg(msg); err != nil {
 					panic(err)
 				}
+				if c.Keep > 0 && c.Keep < input.Len() {
+					input.Truncate(c.Keep)
+				}
+				if c.Cut > 0 && c.Cut <= input.Len() {
+					input.Truncate(input.Len() - c.Cut)
+				}
+				if c.RawStream == "-" {
+					input.Reset()
+				} else if c.RawStream != "" {
+					input.Reset()
+					input.Write(vfHex(c.RawStream))
+				}
+				o.Stream = hex.EncodeToString(input.Bytes())
+				o.MaxLen = p2pcommon.MaxPayloadLength
 			}
 			h := &V200Handshaker{vm: vfVM{c.Local}, logger: logger, peerID: types.PeerID(vfHex(c.Local.Peer)),
 				localGenesisHash: vfHex(c.Local.Genesis)}
